@@ -30,7 +30,24 @@ class Path:
         return [e for e in self.st.events if kind is None or e.kind == kind]
 
     def pc_at(self, ev):
-        return self.st.pc[: ev.pc_len]
+        pc = PC(self.st.pc[: ev.pc_len])
+        pc.path = self
+        return pc
+
+    def library_unknowns(self):
+        return library_unknowns(self.st.events)
+
+
+class PC(list):
+    """a path-condition prefix that remembers the path it was cut from"""
+    path = None
+
+
+def library_unknowns(events):
+    """names of LIBRARY / module-level objects without a model that this path observed (imports nobody under contract models, e.g. after a
+    helper was renamed and its real body inlined).  Instance state, parameters, locals and closure variables a change introduced are NOT
+    in this list: an obligation that such state can falsify is reported."""
+    return sorted({str(e.data.get('name')) for e in events if e.kind == 'unknown_state_used' and str(e.data.get('name', '')).startswith('module:')})[:8]
 
 
 class Builder:
@@ -73,7 +90,12 @@ class UnitResult:
 
     def oblige(self, path_or_pc, name, goal, tag='top', meta=None):
         pc = path_or_pc.st.pc if isinstance(path_or_pc, Path) else path_or_pc
-        self.extra.append(Obligation(f'{self.unit.name}.{name}', pc, goal, tag, meta))
+        path = path_or_pc if isinstance(path_or_pc, Path) else getattr(path_or_pc, 'path', None)
+        if path is not None:
+            lib = path.library_unknowns()
+            if lib:
+                meta = dict(meta or {}, library_unknowns_on_path=lib)
+        self.extra.append(Obligation(f'{self.unit.name}.{name}', list(pc), goal, tag, meta))
 
     def body_paths(self, loop):
         """end states of the generic iteration of a cut loop"""
@@ -155,6 +177,16 @@ class Unit:
             stale = source.mutable_self_state_read(self.relpath, self.selector)
             res.extra.append(Obligation(f'{self.name}.memoised_result_cannot_outlive_the_state_it_was_computed_from', [], z3.BoolVal(not stale),
                                         'top', {'decorators': memo, 'mutable_state_read': stale}))
+        if memo and not any('typed=True' in m.replace(' ', '') for m in memo):
+            # functools caches key on the arguments by EQUALITY and hash: True, 1 and 1.0 share an entry unless typed=True.  A memoised
+            # function that hands a numeric argument back as (part of) its result then returns an equal value of ANOTHER type
+            for prm in (a.posonlyargs + a.args + a.kwonlyargs if self.stmt is None else []):
+                v0 = entry.lookup(prm.arg) if entry.has(prm.arg) else None
+                if isinstance(v0, SV) and v0.ty in (INT, BOOL, sym.REAL):
+                    echoed = [p for p in paths if p.kind == 'return' and isinstance(p.value, SV) and p.value.ty == v0.ty and z3.eq(p.value.z, v0.z)]
+                    if echoed:
+                        res.extra.append(Obligation(f'{self.name}.memoised_result_is_keyed_by_value_and_type[{prm.arg}]', list(echoed[0].st.pc),
+                                                    z3.BoolVal(False), 'top', {'decorators': memo, 'parameter_type': v0.ty.name()}))
         # a mutable default argument the body changes in place is state shared between calls (defaults are built once, at `def` time)
         for prm in (source.shared_mutable_defaults(node) if self.stmt is None else []):
             res.extra.append(Obligation(f'{self.name}.default_argument_is_not_state_shared_between_calls[{getattr(node, "name", "?")}.{prm}]', [],
